@@ -182,6 +182,9 @@ pub struct VCfg {
     /// called after every scheduler step with (state, step#); may inject signals etc.
     pub on_step: Option<Box<dyn FnMut(&Rc<RefCell<SystemState>>, u64)>>,
     pub keep_state: bool,
+    /// standard input is a pipe written by a harness-controlled feeder process, one chunk per
+    /// scheduling turn (instead of the regular file /dev/stdin)
+    pub stdin_chunks: Option<Vec<Vec<u8>>>,
 }
 
 impl VCfg {
@@ -208,6 +211,7 @@ impl VCfg {
             setup: None,
             on_step: None,
             keep_state: false,
+            stdin_chunks: None,
         }
     }
 }
@@ -347,6 +351,45 @@ pub fn run_v(mut cfg: VCfg) -> VOut {
     VSTATE.with(|s| *s.borrow_mut() = Some(Rc::clone(&state)));
     let shell_pid = system.process_id;
 
+    // optional feeder: fd 0 of the shell becomes the read end of a pipe; a separate virtual
+    // process (pid 90, not a child of the shell) owns the write end and writes the chunks
+    if let Some(chunks) = cfg.stdin_chunks.take() {
+        use yash_env::system::{Close as _, Dup as _, Pipe as _, Write as _};
+        let (r, w) = system.pipe().expect("harness: pipe");
+        system.dup2(r, Fd::STDIN).expect("harness: dup2");
+        system.close(r).ok();
+        let feeder_pid = Pid(90);
+        {
+            let mut st = state.borrow_mut();
+            let body = st.processes.get_mut(&shell_pid).unwrap().close_fd(w).unwrap();
+            let mut feeder = yash_env::system::r#virtual::Process::with_parent_and_group(Pid(1), Pid(1));
+            feeder.set_fd(Fd(3), body).ok();
+            st.processes.insert(feeder_pid, feeder);
+        }
+        let fsys = VirtualSystem {
+            state: Rc::clone(&state),
+            process_id: feeder_pid,
+        };
+        let fstate = Rc::clone(&state);
+        sched.add(Box::pin(async move {
+            for chunk in chunks {
+                YieldNow(false).await;
+                let mut off = 0;
+                while off < chunk.len() {
+                    match fsys.write(Fd(3), &chunk[off..]).await {
+                        Ok(n) => off += n,
+                        Err(_) => break,
+                    }
+                }
+            }
+            YieldNow(false).await;
+            fsys.close(Fd(3)).ok();
+            if let Some(p) = fstate.borrow_mut().processes.get_mut(&feeder_pid) {
+                let _ = p.set_state(ProcessState::exited(ExitStatus::SUCCESS));
+            }
+        }));
+    }
+
     let concurrent = Rc::new(Concurrent::new(system));
     let runner = Rc::clone(&concurrent);
     let args = std::mem::take(&mut cfg.args);
@@ -462,6 +505,21 @@ pub fn run_v(mut cfg: VCfg) -> VOut {
         zombies,
         alive,
         state: keep.then_some(state),
+    }
+}
+
+/// yield to the scheduler once
+struct YieldNow(bool);
+impl Future for YieldNow {
+    type Output = ();
+    fn poll(mut self: Pin<&mut Self>, cx: &mut std::task::Context<'_>) -> std::task::Poll<()> {
+        if self.0 {
+            std::task::Poll::Ready(())
+        } else {
+            self.0 = true;
+            cx.waker().wake_by_ref();
+            std::task::Poll::Pending
+        }
     }
 }
 
@@ -634,6 +692,30 @@ where
             }
         }
     })
+}
+
+/// `pos kID FD` : log the current file offset of a descriptor.
+fn pos_main<S>(
+    env: &mut Env<S>,
+    args: Vec<Field>,
+) -> Pin<Box<dyn Future<Output = yash_env::builtin::Result> + '_>>
+where
+    S: yash_env::system::Seek + yash_env::system::GetPid,
+{
+    let id = args.first().map(|f| f.value.clone()).unwrap_or_default();
+    let fd: i32 = args.get(1).and_then(|f| f.value.parse().ok()).unwrap_or(0);
+    let st = status_of(env);
+    let off = match env.system.lseek(Fd(fd), std::io::SeekFrom::Current(0)) {
+        Ok(o) => o.to_string(),
+        Err(e) => format!("error:{e:?}"),
+    };
+    push_event(Event {
+        pid: pid_of(env),
+        kind: "probe",
+        args: vec![id, off],
+        status: st,
+    });
+    Box::pin(std::future::ready(yash_env::builtin::Result::new(ExitStatus(st))))
 }
 
 /// `ret N` : return N, no other effect.
@@ -862,6 +944,7 @@ where
         + yash_env::system::concurrency::WriteAll
         + yash_env::system::concurrency::ReadAll
         + yash_env::system::Read
+        + yash_env::system::Seek
         + yash_env::system::Isatty
         + 'static,
 {
@@ -873,6 +956,7 @@ where
         ("gen", Builtin::new(Type::Mandatory, gen_main::<S>)),
         ("sink", Builtin::new(Type::Mandatory, sink_main::<S>)),
         ("relay", Builtin::new(Type::Mandatory, relay_main::<S>)),
+        ("pos", Builtin::new(Type::Mandatory, pos_main::<S>)),
     ]
 }
 
